@@ -56,6 +56,14 @@ class Exploration:
         if s.cfg.get('setup'): live = run_seq(s.cfg['setup'], True, -1)
         ctrl = [{((f, 0, 0),): (live, [{}])} for f in s.threads]
         e.ctrlsets = ctrl
+        # run every thread's invisible prefix so that each thread is suspended exactly at its first visible operation
+        # (blocking operations are then always subject to the enabledness check)
+        e.stepno = -3
+        for t in range(NT):
+            out = e.run(t, {c: (g, [dict(x) for x in env]) for c, (g, env) in ctrl[t].items()}, first_visible_ok=False)
+            ctrl[t].clear()
+            for c2, (g2, env2) in out.items():
+                if g2 is not False: ctrl[t][c2] = (name(g2), env2)
         DONE = (('done',),)
         def done_g(t): return ctrl[t].get(DONE, (False, None))[0]
         def thread_en(t):
@@ -68,7 +76,7 @@ class Exploration:
             r = False
             for c, (g, env) in ctrl[t].items():
                 if c == DONE: continue
-                r = gor(r, gand(g, e.enabled(t, c, env)))
+                r = gor(r, gand(g, e.enabled(t, c, env, g)))
             return gand(r, thread_en(t))
         sbits = max(1, (NT).bit_length())
         pre_cnt = None; prev = None; prev_run = None
